@@ -341,6 +341,10 @@ type vfRouteExec struct {
 	faults   int
 	panics   []string
 	closing  bool
+	// spawn starts a handler goroutine (plain go at the macro level, a managed goroutine at the micro level)
+	spawn func(name string, f func())
+	// changed is closed (and replaced) on every environment-visible event, for goroutines waiting on a condition
+	changed chan struct{}
 }
 
 // accept lets one parked Send on target k's stream proceed (the slow target reads one message).
@@ -441,7 +445,13 @@ func vfNewRouteExec(sc *vfRouteScenario) *vfRouteExec {
 	return e
 }
 
-func (e *vfRouteExec) logf(f string, a ...any) { e.events = append(e.events, fmt.Sprintf(f, a...)) }
+func (e *vfRouteExec) logf(f string, a ...any) {
+	e.events = append(e.events, fmt.Sprintf(f, a...))
+	if e.changed != nil {
+		close(e.changed)
+		e.changed = make(chan struct{})
+	}
+}
 
 func (e *vfRouteExec) violate(prop, sig, detail string) {
 	for _, v := range e.viol {
@@ -632,6 +642,15 @@ func (e *vfRouteExec) onSourceAck(s *vfSrc, inc int, a int64) {
 			for _, w := range ts.acks {
 				if w > d.ProxyID {
 					ok = true
+				}
+			}
+		}
+		if len(ds) == 0 {
+			for _, ts := range e.tgt[r.Tgt-1].incoming {
+				if ts.broken {
+					// the owner's stream ended at some point: the task was handed to (the queue of) a stream that never
+					// put it on the wire
+					kind = "task-lost-in-handoff-to-ended-target-stream"
 				}
 			}
 		}
@@ -829,7 +848,11 @@ func (e *vfRouteExec) tick(t *vfTgt) {
 // --- opening streams
 
 func (e *vfRouteExec) runHandler(name string, srv adminservice.AdminServiceServer, ss *vfServerStream) {
-	go func() {
+	start := e.spawn
+	if start == nil {
+		start = func(_ string, f func()) { go f() }
+	}
+	start(name, func() {
 		defer func() {
 			if p := recover(); p != nil {
 				e.panics = append(e.panics, fmt.Sprintf("%s: %v", name, p))
@@ -838,7 +861,7 @@ func (e *vfRouteExec) runHandler(name string, srv adminservice.AdminServiceServe
 			ss.cancel() // gRPC cancels the server-stream context when the handler returns
 		}()
 		ss.retErr = srv.StreamWorkflowReplicationMessages(ss)
-	}()
+	})
 }
 
 func (e *vfRouteExec) openTarget(t *vfTgt) {
